@@ -2,6 +2,7 @@ import YarlProofs.C15
 import YarlProofs.C15Entry
 import YarlProofs.C14
 import YarlProofs.C03Reach
+import YarlProofs.C15More
 /-!
 # C15 — Dot segments are removed exactly when an authority is present   (audit layer)
 
@@ -15,10 +16,18 @@ Property statement (verbatim):
 
 Reading guide.  `NoDotSegments p`: no segment of the '/'-split of `p` is "." or "..".  `normalizePath` /
 `normalizePathSegments` are `yarl._path.normalize_path(_segments)` (a stack algorithm);
-`Rfc.removeDotSegments` is an independent transcription of §5.2.4.  47 = '/', 46 = '.'.
+`Rfc.removeDotSegments` is an independent transcription of §5.2.4.  47 = '/', 46 = '.', 37 = '%'.
+`pctDecode` is `urllib.parse.unquote_to_bytes` ("%2E"/"%2e" ↦ the byte '.'); `dot` = ".", `dotdot` = "..".
+`PyStr s`: every code point of `s` is ≤ 0x10FFFF (true of every Python `str`; a model artefact, `Str` is `List Nat`).
+`CanonUrl b u` (Lemmas/ReachFix.lean): path / query / fragment of `u` are canonical text of their REQUOTER and,
+under an authority, the path has no dot segment and is empty or rooted; every `ReachC` URL has it
+(`C03_reachable_canon`).
+
+Updated after C15More.lean (+ Lemmas/DotMore.lean), which closes GAPS 1, 2, 3, and after fixes 7cae68c (with_path
+roots the argument BEFORE normalising) and 264b96e (parent of '/name' is '/'; it does not touch any statement here).
 -/
 namespace Yarl
-open PathLemmas PathAlg WfLemmas EntryLemmas
+open PathLemmas PathAlg WfLemmas EntryLemmas DotMore
 
 /-! ## Sentence 1, first half — no dot segment, per entry point
     -- Appendix E: C15_entry (e : Entry) ↦ the six theorems of this section (there is no `Entry` datatype;
@@ -70,11 +79,102 @@ theorem C15_headline_entry_join_fails_for (e : Env) :
   C15_entry_join_ref_counterexample e
 
 /-- "whether the dots were literal or written %2E": two computed instances on both backends (the general
-    fact is the constructor theorem above applied AFTER the requoter decoded `%2E`, see GAPS 1) -/
+    statements follow: `C15_headline_escaped_dots_constructor` … `_quoter_segments`) -/
 theorem C15_headline_escaped_dots (b : Backend) :
     (encodeUrl ⟨b, Oracles.empty⟩ "http://h/a/%2E%2E/b".toStr).map (·.path) = .ok "/b".toStr ∧
     (encodeUrl ⟨b, Oracles.empty⟩ "http://h/%2e/x".toStr).map (·.path) = .ok "/x".toStr :=
   C15_escaped_dots_normalised b
+
+/-- "whether the dots were literal or written %2E", IN GENERAL — constructor (closes GAPS 1, auto-encoding half):
+    under an authority NO segment of the stored path percent-decodes to "." or ".." — not "%2E", not ".%2e", …
+    (the requoter has decoded every escape of an unreserved character before `normalize_path` ran). -/
+theorem C15_headline_escaped_dots_constructor (e : Env) (s : Str)
+    (hs : PyStr s)                      -- model artefact: code points ≤ 0x10FFFF, true of every Python str
+    (u : Url) :
+    encodeUrl e s = .ok u → u.netloc ≠ [] →
+    ∀ seg ∈ splitOn 47 u.path, pctDecode seg ≠ dot ∧ pctDecode seg ≠ dotdot :=
+  C15_no_encoded_dot_segments e s hs u
+
+/-- … the same with the twelve spellings of a dot segment over '.', "%2E", "%2e" written out -/
+theorem C15_headline_escaped_dots_constructor_spellings (e : Env) (s : Str)
+    (hs : PyStr s)                      -- model artefact, as above
+    (u : Url) :
+    encodeUrl e s = .ok u → u.netloc ≠ [] →
+    ∀ seg ∈ splitOn 47 u.path,
+      seg ∉ ([".", "%2E", "%2e", "..", ".%2E", ".%2e", "%2E.", "%2e.", "%2E%2E", "%2E%2e", "%2e%2E", "%2e%2e"].map
+              String.toStr : List Str) :=
+  C15_no_encoded_dot_spellings e s hs u
+
+/-- … for every URL reachable through the auto-encoding API (constructor, build(encoded=False), all modifiers
+    with Python-string arguments, `/`, joinpath, join: `ReachC`, C03Reach.lean — see GAPS 4 for what `ReachC`
+    leaves out) -/
+theorem C15_headline_escaped_dots_reachable (e : Env) (u : Url) (h : ReachC e u) (hn : u.netloc ≠ []) :
+    ∀ seg ∈ splitOn 47 u.path, pctDecode seg ≠ dot ∧ pctDecode seg ≠ dotdot :=
+  C15_no_encoded_dot_segments_reachable e u h hn
+
+/-- … per entry point: build(encoded=False) -/
+theorem C15_headline_escaped_dots_build (e : Env) (a : BuildArgs) (u : Url)
+    (henc : a.encoded = false)          -- guard: encoded=True stores the text as given (GAPS 5)
+    (hpy : BuildArgsPy a) :             -- model artefact: path / query_string / fragment / query are Python strs
+    build e a = .ok u → u.netloc ≠ [] →
+    ∀ seg ∈ splitOn 47 u.path, pctDecode seg ≠ dot ∧ pctDecode seg ≠ dotdot :=
+  C15_no_encoded_dot_segments_build e a u henc hpy
+
+/-- … with_path(encoded=False) -/
+theorem C15_headline_escaped_dots_with_path (e : Env) (u : Url)
+    (hu : CanonUrl e.b u)               -- guard: the receiver is in canonical form (every `ReachC` URL is; GAPS 4)
+    (path : Str)
+    (hp : PyStr path)                   -- model artefact
+    (kq kf : Bool) : u.netloc ≠ [] →
+    ∀ seg ∈ splitOn 47 (withPath e u path false kq kf).path, pctDecode seg ≠ dot ∧ pctDecode seg ≠ dotdot :=
+  C15_no_encoded_dot_segments_with_path e u hu path hp kq kf
+
+/-- … `/` and joinpath(encoded=False) -/
+theorem C15_headline_escaped_dots_joinpath (e : Env) (u : Url)
+    (hu : CanonUrl e.b u)               -- guard: the receiver is in canonical form (every `ReachC` URL is; GAPS 4)
+    (paths : List Str)
+    (hp : ∀ p ∈ paths, PyStr p)         -- model artefact
+    (v : Url) : makeChild e u paths false = .ok v → v.netloc ≠ [] →
+    ∀ seg ∈ splitOn 47 v.path, pctDecode seg ≠ dot ∧ pctDecode seg ≠ dotdot :=
+  C15_no_encoded_dot_segments_make_child e u hu paths hp v
+
+/-- what the NON-requoting PATH_QUOTER (build, with_path, `/`, joinpath) does with a supplied "%2E" (closes
+    GAPS 1, QUOTER half): it works character by character and a '%' ALWAYS becomes "%25", whatever follows — so
+    "%2E" is stored as "%252E", which decodes to the literal text "%2E", not to a dot … -/
+theorem C15_headline_escaped_dots_quoter (e : Env) (a b : Str)
+    (ha : PyStr a) (hb : PyStr b) :     -- model artefact
+    q e Gen.PATH_QUOTER (a ++ 37 :: b) = q e Gen.PATH_QUOTER a ++ "%25".toStr ++ q e Gen.PATH_QUOTER b ∧
+    q e Gen.PATH_QUOTER "%2E".toStr = "%252E".toStr ∧
+    pctDecode (q e Gen.PATH_QUOTER "%2E".toStr) = "%2E".toStr ∧
+    q e Gen.PATH_QUOTER "%2e%2E".toStr = "%252e%252E".toStr ∧
+    pctDecode (q e Gen.PATH_QUOTER "%2e%2E".toStr) = "%2e%2E".toStr :=
+  ⟨C15_quoter_escapes_percent e a b ha hb, C15_quoter_dot_escape_is_literal e⟩
+
+/-- … and, segment by segment: every '/'-segment of the quoted text is the quoted form of ONE supplied segment,
+    decodes to that segment's own UTF-8 bytes, and decodes to "." / ".." ONLY IF the supplied segment (lone
+    surrogates aside, which every quoter drops: `stripSurr`) was literally "." / ".." — and those literal ones are
+    removed under an authority (section above). -/
+theorem C15_headline_escaped_dots_quoter_segments (e : Env) (s : Str)
+    (hs : PyStr s) :                    -- model artefact
+    ∀ seg' ∈ splitOn 47 (q e Gen.PATH_QUOTER s), ∃ seg ∈ splitOn 47 s,
+      seg' = q e Gen.PATH_QUOTER seg ∧ pctDecode seg' = utf8s seg ∧
+      (pctDecode seg' = dot → stripSurr seg = dot) ∧ (pctDecode seg' = dotdot → stripSurr seg = dotdot) :=
+  C15_quoter_segment_decodes_to_dot e s hs
+
+/-- the encoded=True exemption, made visible (GAPS 5; both backends): under the authority "h",
+    `with_path("/a/../b", encoded=True)`, `build(path="/a/../b", encoded=True)` and `URL("http://h/a/../b",
+    encoded=True)` (`preEncodedUrl`) store "/a/../b" with its dot segments, whereas `joinpath("../a", encoded=True)` on "/x" DOES normalise (stores "/a": `_make_child` tests
+    `"." in path` whatever `encoded` is). -/
+theorem C15_headline_entry_fails_for_encoded_true (b : Backend) :
+    let e : Env := ⟨b, Oracles.empty⟩
+    let u := fromParts "http".toStr "h".toStr "/x".toStr [] []
+    (withPath e u "/a/../b".toStr true false false).path = "/a/../b".toStr ∧
+    (build e { scheme := "http".toStr, host := "h".toStr, path := "/a/../b".toStr, encoded := true }).map
+      (fun v => (v.netloc, v.path)) = .ok ("h".toStr, "/a/../b".toStr) ∧
+    (preEncodedUrl e "http://h/a/../b".toStr).map (fun v => (v.netloc, v.path)) = .ok ("h".toStr, "/a/../b".toStr) ∧
+    ¬ NoDotSegments "/a/../b".toStr ∧
+    (makeChild e u ["../a".toStr] true).map (·.path) = .ok "/a".toStr := by
+  cases b <;> decide +kernel
 
 /-! ## Sentence 1, second half — the RFC algorithm -/
 
@@ -102,6 +202,89 @@ theorem C15_headline_rfc_with_path (e : Env) (u : Url) (path : Str) (kq kf : Boo
       if q e Gen.PATH_QUOTER path = [] then [] else Rfc.removeDotSegments (rooted (q e Gen.PATH_QUOTER path)) :=
   C15_entry_withPath_rfc e u path kq kf
 
+/-- … with_path, the instances that were counterexamples before fix 7cae68c and are exact now (both backends):
+    `URL("http://h/x").with_path(".//a")` stores "//a" (was "/a"), `.with_path("a/..//b")` stores "//b" (was "/b")
+    like the constructor on "http://h/a/..//b", `.with_path("..")` stores "/" (was ""). -/
+theorem C15_headline_rfc_with_path_fixed_instances (b : Backend) :
+    let e : Env := ⟨b, Oracles.empty⟩
+    let u := fromParts "http".toStr "h".toStr "/x".toStr [] []
+    (withPath e u ".//a".toStr false false false).path = "//a".toStr ∧
+      Rfc.removeDotSegments "/.//a".toStr = "//a".toStr ∧
+    (withPath e u "a/..//b".toStr false false false).path = "//b".toStr ∧
+      Rfc.removeDotSegments "/a/..//b".toStr = "//b".toStr ∧
+      (encodeUrl e "http://h/a/..//b".toStr).map (·.path) = .ok "//b".toStr ∧
+    (withPath e u "..".toStr false false false).path = "/".toStr ∧
+      Rfc.removeDotSegments "/..".toStr = "/".toStr :=
+  C15_with_path_rfc_now_exact b
+
+/-- … for build(encoded=False) (closes GAPS 2, build): under an authority the quoted `path` argument is empty or
+    rooted (build rejects anything else), and the stored path IS remove_dot_segments of it -/
+theorem C15_headline_rfc_build (e : Env) (a : BuildArgs) (u : Url) :
+    a.encoded = false →                 -- guard: encoded=True stores the text as given (GAPS 5)
+    build e a = .ok u → u.netloc ≠ [] →
+    (q e Gen.PATH_QUOTER a.path = [] ∨ ∃ r, q e Gen.PATH_QUOTER a.path = 47 :: r) ∧
+    u.path = Rfc.removeDotSegments (q e Gen.PATH_QUOTER a.path) :=
+  C15_build_rfc e a u
+
+/-- … for `/` and joinpath(encoded=False) (closes GAPS 2, `/` + joinpath — WITH its exact deviation).
+    `M` is the segment list of the merged path: `base u` = the receiver's '/'-segments without a trailing empty one
+    ([] for an empty path); `childSegs e paths` = the new segments (each quoted argument split at '/', all arguments
+    but the last without a trailing empty segment); `root u.netloc L` = `L` with the root's empty first segment put in
+    front (when `L` is non-empty and does not start with one).  `J = "/".join(M)` is the merged path, empty or rooted;
+    `R` is §5.2.4 applied to it.  `climbs 0 L` = "walking `L` with a depth counter (".." pops, "." stays, anything
+    else pushes), some ".." meets depth 0"; `anyDot e paths` = some quoted argument contains a '.'.
+    The stored path IS `R` — except, and ONLY when a ".." climbs above the root, that `R = "/"` is stored as the
+    empty path and `R = "//" ++ t` as `"/" ++ t`: the stack algorithm pops the root's empty segment like any other
+    (known finding F-C15-root-consumed: `C15_headline_rfc_joinpath_fails_for_root_consumed`). -/
+theorem C15_headline_rfc_joinpath (e : Env) (u : Url) (paths : List Str) (v : Url) :
+    makeChild e u paths false = .ok v → u.netloc ≠ [] →
+    NoDotSegments u.path →              -- guard: the receiver's own path is clean (every `ReachC` URL; GAPS 4)
+    let M := root u.netloc (base u ++ childSegs e paths)
+    let R := Rfc.removeDotSegments (joinC 47 M)
+    (joinC 47 M = [] ∨ ∃ r, joinC 47 M = 47 :: r) ∧
+    (v.path = R ∨
+      (climbs 0 M.tail = true ∧ anyDot e paths = true ∧
+        ((R = [47] ∧ v.path = []) ∨ ∃ t, R = 47 :: 47 :: t ∧ v.path = 47 :: t))) :=
+  C15_make_child_rfc e u paths v
+
+/-- … `/` and joinpath: EXACT agreement with §5.2.4 when no ".." climbs above the root … -/
+theorem C15_headline_rfc_joinpath_noclimb (e : Env) (u : Url) (paths : List Str) (v : Url)
+    (h : makeChild e u paths false = .ok v) (hn : u.netloc ≠ [])
+    (hu : NoDotSegments u.path)         -- guard: the receiver's own path is clean (every `ReachC` URL; GAPS 4)
+    (hc : climbs 0 (root u.netloc (base u ++ childSegs e paths)).tail = false) :
+                                        -- known finding F-C15-root-consumed: no ".." climbs above the root
+    v.path = Rfc.removeDotSegments (joinC 47 (root u.netloc (base u ++ childSegs e paths))) :=
+  C15_make_child_rfc_noclimb e u paths v h hn hu hc
+
+/-- … and whenever the RFC result is neither "/" nor starts with "//" -/
+theorem C15_headline_rfc_joinpath_generic (e : Env) (u : Url) (paths : List Str) (v : Url)
+    (h : makeChild e u paths false = .ok v) (hn : u.netloc ≠ [])
+    (hu : NoDotSegments u.path)         -- guard: the receiver's own path is clean (every `ReachC` URL; GAPS 4)
+    (h1 : Rfc.removeDotSegments (joinC 47 (root u.netloc (base u ++ childSegs e paths))) ≠ [47])
+                                        -- known finding F-C15-root-consumed: RFC result "/" may be stored as ""
+    (h2 : ∀ t, Rfc.removeDotSegments (joinC 47 (root u.netloc (base u ++ childSegs e paths))) ≠ 47 :: 47 :: t) :
+                                        -- known finding F-C15-root-consumed: RFC result "//t" may be stored as "/t"
+    v.path = Rfc.removeDotSegments (joinC 47 (root u.netloc (base u ++ childSegs e paths))) :=
+  C15_make_child_rfc_generic e u paths v h hn hu h1 h2
+
+/-- KNOWN FINDING F-C15-root-consumed (the guards `hc` / `h1`, `h2` above are needed; both backends):
+    `URL("http://h/x") / "../..//a"` stores "/a", where the merged path is "/x/../..//a", §5.2.4 gives "//a" and the
+    constructor on "http://h/x/../..//a" stores "//a" — the ".." that climbs above the root consumes the root's
+    empty segment, so the empty segment that follows becomes the root; and `URL("http://h") / ".."` stores ""
+    where §5.2.4 of "/.." is "/" (harmless: raw_path shows "/").  Repairing it changes the result pinned by
+    tests/test_url.py::test_joinpath_backtrack_to_base. -/
+theorem C15_headline_rfc_joinpath_fails_for_root_consumed (b : Backend) :
+    let e : Env := ⟨b, Oracles.empty⟩
+    let u := fromParts "http".toStr "h".toStr "/x".toStr [] []
+    let u0 := fromParts "http".toStr "h".toStr [] [] []
+    (makeChild e u ["../..//a".toStr] false).map (·.path) = .ok "/a".toStr ∧
+      joinC 47 (root u.netloc (base u ++ childSegs e ["../..//a".toStr])) = "/x/../..//a".toStr ∧
+      Rfc.removeDotSegments "/x/../..//a".toStr = "//a".toStr ∧
+      (encodeUrl e "http://h/x/../..//a".toStr).map (·.path) = .ok "//a".toStr ∧
+    (makeChild e u0 ["..".toStr] false).map (·.path) = .ok [] ∧
+      Rfc.removeDotSegments "/..".toStr = "/".toStr :=
+  C15_make_child_rfc_counterexamples b
+
 /-- … for join ("or merged"): the path of the relative branch is remove_dot_segments of the §5.2.3 target path,
     whenever that is rooted or free of '.' (C14: `JoinLemmas.joinPath_rfc`) -/
 theorem C15_headline_rfc_join (base ref : Url)
@@ -109,6 +292,21 @@ theorem C15_headline_rfc_join (base ref : Url)
     (ht : (∃ q, JoinLemmas.target base ref = 47 :: q) ∨ 46 ∉ JoinLemmas.target base ref) :
     JoinLemmas.joinPath base ref = Rfc.removeDotSegments (JoinLemmas.target base ref) :=
   JoinLemmas.joinPath_rfc base ref hb hp ht
+
+/-- … join, at the level of the URL (closes GAPS 2, join as an entry point): a relative reference with a non-empty
+    path against a base with an authority and an empty-or-rooted path keeps the base's authority, the §5.2.3 target
+    path is rooted, and the result's path IS remove_dot_segments of it -/
+theorem C15_headline_rfc_join_url (e : Env) (base ref : Url)
+    (hrel : Gen.usesRelative.contains base.scheme = true)   -- guard: otherwise join returns `ref` itself
+    (hsch : ref.scheme = [] ∨ ref.scheme = base.scheme)     -- guard: the reference is relative to this base
+    (hn : base.netloc ≠ [])                                  -- "whenever a URL has an authority"
+    (hb : base.path = [] ∨ base.path.head? = some 47)        -- guard: base path empty or rooted (every `ReachC` URL)
+    (hrn : ref.netloc = [])                                  -- guard: a reference with its own authority is taken as it is
+    (hp : ref.path ≠ []) :                                   -- guard: an empty reference path keeps the base path
+    (join e base ref).netloc = base.netloc ∧
+    (∃ r, JoinLemmas.target base ref = 47 :: r) ∧
+    (join e base ref).path = Rfc.removeDotSegments (JoinLemmas.target base ref) :=
+  C15_join_rfc e base ref hrel hsch hn hb hrn hp
 
 /-- "never climbing above the root" -/
 theorem C15_headline_rooted (p : Str) : ∃ q, normalizePath (47 :: p) = 47 :: q :=
@@ -137,6 +335,38 @@ theorem C15_headline_no_authority_verbatim_with_path (e : Env) (u : Url) (path :
   simp only [withPath, hn, fromParts]
   split <;> simp_all
 
+/-- … build(encoded=False) (closes GAPS 3, build): without an authority the stored path IS the quoted `path`
+    argument, nothing removed; and its '/'-segments are the quoted segments of the argument, one for one
+    (PATH_QUOTER keeps '.' and '/' as they are and turns "%2E" into "%252E": `C15_headline_escaped_dots_quoter`) -/
+theorem C15_headline_no_authority_verbatim_build (e : Env) (a : BuildArgs) (u : Url) :
+    a.encoded = false →                 -- guard: with encoded=True the argument is stored unquoted (also verbatim)
+    build e a = .ok u → u.netloc = [] →
+    u.path = q e Gen.PATH_QUOTER a.path ∧
+    (PyStr a.path →                     -- model artefact
+      splitOn 47 u.path = (splitOn 47 a.path).map (q e Gen.PATH_QUOTER)) :=
+  fun henc h hn => ⟨C15_build_no_authority_verbatim e a u henc h hn,
+    fun hpy => C15_build_no_authority_segments e a u hpy henc h hn⟩
+
+/-- … `/` and joinpath(encoded=False) (closes GAPS 3, `/` + joinpath): on a URL without authority the result has no
+    authority and its path is the plain '/'-join of the receiver's segments (`base u`: without a trailing empty one)
+    and the new segments (`childSegs e paths`: the quoted arguments split at '/'); splitting it gives these
+    segments back, so every "." and ".." of either operand is still there -/
+theorem C15_headline_no_authority_verbatim_joinpath (e : Env) (u : Url) (paths : List Str) (v : Url) :
+    makeChild e u paths false = .ok v → u.netloc = [] →
+    v.netloc = [] ∧ v.path = joinC 47 (base u ++ childSegs e paths) ∧
+    (base u ++ childSegs e paths ≠ [] → splitOn 47 v.path = base u ++ childSegs e paths) ∧
+    (∀ seg, seg ∈ base u ∨ seg ∈ childSegs e paths → seg ∈ splitOn 47 v.path) :=
+  C15_make_child_no_authority_verbatim e u paths v
+
+/-- "URLs without an authority keep their dot segments verbatim" is FALSE for join, by design (RFC 3986 §5.2 removes
+    dot segments when resolving, with or without authority; general form: `C15_entry_join_merge`, C15Entry.lean):
+    `URL("x/y").join(URL("../z/./w"))` has no authority and the path "z/w". -/
+theorem C15_headline_no_authority_verbatim_fails_for_join (e : Env) :
+    let base := fromParts [] [] "x/y".toStr [] []
+    let ref := fromParts [] [] "../z/./w".toStr [] []
+    (join e base ref).netloc = [] ∧ (join e base ref).path = "z/w".toStr ∧ ¬ NoDotSegments ref.path := by
+  simp only [join]; decide
+
 /-- "and normalisation is idempotent" -/
 theorem C15_headline_idempotent (p : Str) (segs : List Str) :
     normalizePath (normalizePath (47 :: p)) = normalizePath (47 :: p) ∧
@@ -156,32 +386,52 @@ example : (withPath ⟨.py, Oracles.empty⟩ (fromParts [] [] [] [] []) "../a/./
 
 /-
 GAPS:
- 1. "%2E": NoDotSegments looks at LITERAL dots only.  That the stored path of an auto-encoded URL cannot
-    contain a segment "%2E" / "%2e%2E" (because the requoter decodes escaped unreserved characters before
-    normalisation) is shown on two computed instances only (C15_headline_escaped_dots); the general
-    statement (no segment of u.path percent-decodes to "." or "..") is not proved.  For build / with_path /
-    joinpath the QUOTER (non-requoting) turns a supplied "%2E" into "%252E", which is not a dot segment:
-    no theorem either.
- 2. "equals RFC 3986 5.2.4 remove_dot_segments applied to the rooted path that was supplied or merged" is
-    proved for: the algorithm on rooted input (C15_headline_rfc), the constructor, join's relative
-    branch, and with_path (C15_headline_rfc_with_path — EXACT since fix 7cae68c: the argument is now rooted
-    first, "/" + path for a rootless one, and normalize_path runs on the rooted path, so the stored path is
-    remove_dot_segments of the rooted argument for every non-empty argument; the old code normalised a rootless
-    argument as a RELATIVE path and rooted it afterwards, which lost a segment when the RFC result was "/" or
-    started with "//" — with_path("a/..//b") stored "/b", now "//b": C15_with_path_rfc_now_exact in
-    C15More.lean).  NOT stated per entry point HERE for build (follows from C15_rfc since build rejects a
-    rootless path under an authority; written out as C15_build_rfc in C15More.lean) and / + joinpath
-    (`normalizePathSegments` on the segment list; C15_make_child_rfc in C15More.lean states it with its exact
-    deviation — a ".." climbing above the root — which remains: pinned by a test, recorded as a known finding).
- 3. "URLs without an authority keep their dot segments verbatim": proved for the constructor and (new)
-    with_path.  Not proved for build (true by inspection: normalisation only under `netloc ≠ []`) and for
-    / + joinpath.  It is FALSE for join, by design (RFC 5.2 removes dot segments when resolving, with or
-    without authority: `C15_entry_join_merge`), which the property text does not exclude.
+ 1. CLOSED by C15_no_encoded_dot_segments (+ _reachable, _build, _with_path, _make_child), C15_no_encoded_dot_spellings,
+    C15_quoter_escapes_percent, C15_quoter_dot_escape_is_literal, C15_quoter_segment_decodes_to_dot (C15More.lean),
+    see C15_headline_escaped_dots_constructor, _constructor_spellings, _reachable, _build, _with_path, _joinpath,
+    C15_headline_escaped_dots_quoter, _quoter_segments.  Proved: under an authority no '/'-segment of the stored
+    path percent-decodes (`pctDecode` = unquote_to_bytes) to "." or ".." — for the constructor, build(encoded=False),
+    with_path / `/` / joinpath (encoded=False) and every `ReachC` URL; and the non-requoting PATH_QUOTER turns every
+    '%' into "%25" ("%2E" is stored as "%252E"), each quoted segment decoding to "." / ".." only if the supplied
+    segment was literally one.  Side conditions: `PyStr` of the arguments (model artefact, true of every Python
+    str); for with_path / joinpath the receiver must satisfy `CanonUrl`, which is discharged for `ReachC` URLs
+    only (C03_reachable_canon) — same limit as item 4.
+ 2. CLOSED by C15_build_rfc, C15_make_child_rfc (+ _noclimb, _generic, _counterexamples), C15_join_rfc,
+    C15_with_path_rfc_now_exact (C15More.lean), see C15_headline_rfc_build, C15_headline_rfc_joinpath (+ _noclimb,
+    _generic), C15_headline_rfc_join_url, C15_headline_rfc_with_path_fixed_instances — EXCEPT for the known finding
+    F-C15-root-consumed (C15_headline_rfc_joinpath_fails_for_root_consumed), which is not a gap of the proof but a
+    deviation of the library.  "equals RFC 3986 5.2.4 remove_dot_segments applied to the rooted path that was
+    supplied or merged" is now proved for: the algorithm on rooted input (C15_headline_rfc), the constructor, build
+    (the quoted argument is empty or rooted, else rejected), with_path (C15_headline_rfc_with_path — EXACT since fix
+    7cae68c: the argument is rooted first, "/" + path for a rootless one, and normalize_path runs on the rooted path;
+    the old code normalised a rootless argument as a RELATIVE path and rooted it afterwards: with_path("a/..//b")
+    stored "/b", now "//b"), join (path level C15_headline_rfc_join, URL level C15_headline_rfc_join_url), and `/` +
+    joinpath with its EXACT deviation: the stored path is remove_dot_segments of the merged rooted path unless a ".."
+    climbs above the root AND the RFC result is "/" (stored "") or "//t" (stored "/t").  That deviation remains in
+    the library (pinned by tests/test_url.py::test_joinpath_backtrack_to_base).
+ 3. CLOSED by C15_build_no_authority_verbatim, C15_build_no_authority_segments, C15_make_child_no_authority_verbatim
+    (C15More.lean), see C15_headline_no_authority_verbatim_build, C15_headline_no_authority_verbatim_joinpath.
+    "URLs without an authority keep their dot segments verbatim" is now proved for the constructor, with_path, build
+    and `/` + joinpath (all encoded=False; stored path = quoted argument resp. plain '/'-join of old and new
+    segments).  It is FALSE for join, by design (RFC 5.2 removes dot segments when resolving, with or
+    without authority: `C15_entry_join_merge`; witness C15_headline_no_authority_verbatim_fails_for_join), which
+    the property text does not exclude.
  4. joinpath / join need the receiver's / operands' paths to be dot-free already; for reachable URLs this is
     C15_headline_reachable (via C03Reach's CanonUrl invariant), whose `ReachC` restricts modifier
     arguments to `op.ArgsCanon` (see C03Reach.lean) — URLs outside `ReachC` (encoded=True anywhere in the
     history) are not covered.
- 5. encoded=True entry points (constructor, build, with_path, joinpath) deliberately skip normalisation;
-    no theorem, and the property text ("however produced") does not mention the exemption.
+ 5. PARTLY CLOSED by computed witnesses, see C15_headline_entry_fails_for_encoded_true: with_path(encoded=True),
+    build(encoded=True) and the encoded=True constructor store "/a/../b" under an authority with its dot segments
+    (they deliberately skip normalisation), whereas `/` + joinpath with encoded=True DO normalise when a new segment
+    contains '.' (`_make_child` tests `"." in path` whatever `encoded` is) — the earlier text of this item listed
+    joinpath among the skipping entry points, which was wrong.
+    Still open: no general theorem for the encoded=True entry points, and the property text ("however produced")
+    does not mention the exemption.
+ 6. (new) join outside the hypotheses of C15_headline_rfc_join / C15_headline_rfc_join_url is not compared with
+    §5.2.4: a base WITHOUT authority whose §5.2.3 target path is rootless and contains '.' (there `normalize_path`
+    works on a relative path, and `Rfc.removeDotSegments` is only related to it on rooted input: C15_headline_rfc).
+    Under an authority with an empty-or-rooted base path — the scope of the property — the target is always rooted
+    (second conjunct of C15_headline_rfc_join_url).  C15_headline_rfc_join_url also needs `ref.netloc = []`: a
+    reference with its own authority is taken as it is (C15_headline_entry_join_fails_for).
 -/
 end Yarl
